@@ -214,7 +214,7 @@ class Engine:
     name = "history"
     spec = "history"
     property_id = "C20"
-    runs = {"quick": 480, "thorough": 40000}
+    runs = {"quick": 800, "thorough": 60000}
     wall = {"quick": 300, "thorough": 1200}
     selftest_n = {"quick": 6, "thorough": 24}
     chunk = 10
